@@ -159,6 +159,8 @@ def check_specs(st, specs, label, perturb=None, depth=0):
     cases, kept, nfail = [], [], 0
     for res in results:
         spec = res["spec"]
+        if depth == 1:
+            st.min_cache[res["text"]] = res["exc1"] is not None
         nontriv = has_phase_info(spec)
         ctx.count(("unphase", res["text"]), nontrivial=nontriv)
         ctx.tally(f"{label}.files")
@@ -221,7 +223,7 @@ def check_specs(st, specs, label, perturb=None, depth=0):
             for m in ms:
                 key = uv.write_text(m)
                 if key not in st.min_cache:
-                    st.min_cache[key] = True
+                    st.min_cache[key] = None          # filled in by the depth-1 run: did this call crash alone?
                     fresh.append(m)
             minimal.append((spec, res, ms, fresh))
         else:
@@ -253,9 +255,12 @@ def check_specs(st, specs, label, perturb=None, depth=0):
         fresh_all = [m for _, _, _, fresh in minimal for m in fresh]
         nfail += check_specs(st, fresh_all, "min", perturb=None, depth=1)
         for spec, res, ms, fresh in minimal:
-            # the run stopped at this record: at least one of its calls must crash alone
-            if not ms:
-                report(st, f"unphase:crash-other:{res['exc1']}:no-sample", f"crash on\n{res['text']}", spec)
+            # the run stopped at this record: at least one of its calls must crash alone (then it was reported
+            # under the signature of its shape); otherwise the whole file is the finding
+            if not any(st.min_cache.get(uv.write_text(m)) for m in ms):
+                report(st, f"unphase:crash-other:{res['exc1']}:not-reducible-to-one-call",
+                       f"`whatshap unphase` exits with {res['exc1']}; no single call of the record it stopped at "
+                       f"reproduces it; input:\n{res['text']}", spec)
     return nfail
 
 
@@ -384,7 +389,7 @@ def check_phase(st, payloads, label="phase", perturb=None):
         orig = files[0]
         if orig["exc"] is not None:
             raise RuntimeError(f"harness: unphase of the synthetic phase input failed: {orig['exc']}")
-        _, r_orig = uv.parse_vcf(orig["path"], strip_info_header(orig["text"]), st.interner)
+        _, r_orig = uv.parse_vcf(orig["path"], orig["text"], st.interner)
         _, u_orig = uv.parse_vcf(orig["upath"], orig["utext"], st.interner)
         for k, f in enumerate(files[1:]):
             ctx.count(("phase", orig["text"], k, tuple(res["payload"]["rounds"])), nontrivial=("|" in f["text"].split("#CHROM")[1]))
@@ -420,10 +425,6 @@ def check_phase(st, payloads, label="phase", perturb=None):
                             [{"payload": kept[i][0]["payload"], "round": kept[i][1],
                               "phased": kept[i][0]["files"][kept[i][1] + 1]["text"].split("#CHROM")[1][:1200]} for i in l2])
     return nfail
-
-
-def strip_info_header(text):
-    return text
 
 
 def report_phase(st, sig, what, payload):
